@@ -136,14 +136,31 @@ def _mklock(name, path, F):
 
 
 def _preuse(name, path, F):
-    """What the supervisor of a 'forked-X' scenario does before it forks: ordinary earlier use of the object."""
+    """What the supervisor of a 'forked-X' scenario does before it forks: ordinary earlier use of the object, in a
+    different order per scenario (the last operation before the fork is a failed non-blocking attempt / a timed-out
+    attempt / a successful acquire-release)."""
     l = _mklock(name, path, F)
     other = F.FileLock(path)
-    other.acquire()
-    l.acquire(blocking=False)       # a failed attempt
-    other.release()
-    l.acquire(timeout=-1)           # a successful use (waits for contenders however long they take)
-    l.release()
+
+    def success():
+        l.acquire(timeout=-1)       # waits for contenders however long they take
+        l.release()
+
+    def failed(**kw):
+        other.acquire(timeout=-1)
+        got = l.acquire(**kw)
+        other.release()
+        if got:                     # (cannot happen while `other` holds the OS lock)
+            l.release()
+    if name == 'blocking':
+        success()
+        failed(blocking=False)
+    elif name == 'timed':
+        success()
+        failed(timeout=0.01, poll_interval=0.002)
+    else:
+        failed(blocking=False)
+        success()
     assert not l.is_locked
     return l
 
